@@ -397,6 +397,23 @@ _CP = st.one_of(st.characters(min_codepoint=0x20, max_codepoint=0x7E),
 
 def _gen(g):
     t = g.weighted([(60, "buf"), (22, "textrecv"), (18, "textpipe")])
+    if t == "buf" and g.chance(8):
+        # targeted history: a search for delimiter A gives up (DelimiterNotFound), a search for another delimiter B
+        # succeeds and consumes bytes, then A is searched for again (any per-delimiter search state is now stale)
+        A, B = g.choice([(b"\n", b"a"), (b"\r\n", b"a"), (b"ab", b"\n"), (b"a", b"\r\n"), (b"aab", b"\n")])
+        fill = lambda k: bytes(g.choice(b"c-") for _ in range(k))      # noqa: E731
+        data = fill(g.int(2, 9)) + B + fill(g.int(0, 4)) + A + fill(g.int(0, 5)) + A + fill(g.int(0, 3))
+        if g.bool():
+            data += B + fill(g.int(0, 3)) + A
+        ncuts = g.int(0, min(len(data), 6))
+        cuts = sorted(g.int(1, len(data) - 1) for _ in range(ncuts))
+        ops = [["until", A, g.int(0, 6)], ["until", B, 65536], ["until", A, 65536]]
+        for _ in range(g.int(0, 3)):
+            ops.append(g.choice([["until", A, 65536], ["until", B, g.choice([2, 65536])], ["recv", g.choice([1, 3, 64])],
+                                 ["until", A, g.int(0, 4)], ["exact", g.int(0, 3)]]))
+        if g.chance(30):
+            ops.insert(g.int(0, len(ops)), ["feed", fill(g.int(0, 3)) + g.choice([A, B, b""])])
+        return {"t": "buf", "data": data, "cuts": cuts, "kind": g.choice(["byte", "obj"]), "ops": ops}
     if t == "buf":
         big = g.chance(4)
         alpha = g.choice([b"ab", b"ab\n", b"abc\r\n"])
